@@ -42,11 +42,12 @@ PROPS = {
     "C12": {
         "units": ["auth"],
         "kani": [],
-        "level_text": "Proof of the decision kernel of authentication: validate_call/validate_notification return exactly `authorized || method not on the list` (an iff); the HTTP layer inserts the Authorized marker iff allow_all or the Authorization header equals the configured one and never rejects; new() never sets allow_all; per-method obligations regenerated from api.rs on every run: every RPC method is protected or on the statement's read-only allow-list, the 11 mutating methods named in the statement are protected one by one.",
-        "level_note": "Assumed: jsonrpsee Request/Notification/Extensions and hyper headers as opaque shims with uninterpreted observers; HashSet<String>::contains(&str) and Option<&str> equality wrappers (N21, N22); base64/format! of the header value not modelled. Not covered: RpcServiceT::{call,notification,batch} (return impl Future around jsonrpsee internals), the middleware wiring in start_rpc_server, `state unchanged after refusal`.",
+        "level_text": "Proof of the decision kernel of authentication: validate_call/validate_notification return exactly `authorized || method not on the list` (an iff); the HTTP layer inserts the Authorized marker iff allow_all or the Authorization header equals the configured one and never rejects; new() never sets allow_all; the three middleware entry points on their real bodies: call forwards the request to the inner service iff it is permitted and otherwise answers 401 without forwarding, notification forwards iff permitted and otherwise drops it, batch filters every element at every position on its own (loop invariant over the whole batch: a permitted element or an earlier error is handed on unchanged, any other element is replaced by a 401 error before the batch is forwarded); per-method obligations regenerated from api.rs on every run: every RPC method is protected or on the statement's read-only allow-list, the 11 mutating methods named in the statement are protected one by one.",
+        "level_note": "Assumed: jsonrpsee Request/Notification/Extensions and hyper headers as opaque shims with uninterpreted observers; HashSet<String>::contains(&str) and Option<&str> equality wrappers (N21, N22); base64/format! of the header value not modelled. jsonrpsee's Batch/BatchEntry/MethodResponse/ErrorObject as small structural shims and `ResponseFuture::ready(..)` / `ResponseFuture::future(self.service.x(..))` rewritten to a `Handed` enum that records what is answered at once and what is forwarded (N36). Not covered: RpcAuthMiddleware::new (collect into the HashSet), the middleware wiring in start_rpc_server, that jsonrpsee executes a method only when the inner service receives it (`state unchanged after refusal` rests on that).",
         "assumptions": [
             "jsonrpsee/hyper request types are opaque shims (extensions().get::<Authorized>(), method_name(), headers().get(..), extensions_mut().insert(..))",
-            "call/notification/batch of RpcServiceT and the wiring in rpc_server.rs are outside the kernel",
+            "jsonrpsee executes a method only when the inner RpcService receives the call / notification / Ok batch entry; Batch::iter_mut walks the entries in order (N36)",
+            "the wiring in rpc_server.rs / start.rs (which layers are installed, with which deny list) is outside the kernel",
             "the method-list obligations are syntactic: api.rs `#[method(name=..)]` attributes and the INDEXER_METHODS literal are re-read on every run",
         ],
     },
